@@ -38,7 +38,7 @@ ASSUMPTIONS = [
     'is_hermitian of InteractionOperator / sparse matrices / numpy arrays is not covered here (numeric kernels); FermionOperator and BosonOperator is_hermitian are covered by the Spec oracle only (their Model is normal ordering, C03)',
 ]
 OPEN_STATEMENTS = [
-    'majorana_terms_commute_iff against the Spec action actM (Clifford relations on bit masks) is not proved; proved instead: the shortcut agrees with the Model product for ALL index lists (commutes_shortcut_iff_products_equal); the denotation of products is checked by the spec.eq oracle',
+    'commutes_with general path (self*other == other*self): the denotation of the Model product mmul is a C01 statement; here the shortcut is proved equivalent both to the Model products being equal and to commutation in the Spec (majorana_terms_commute_iff); operators with several terms are covered by the spec.eq oracle',
     'is_hermitian: no theorem connects hermitian_conjugated to the adjoint of the denoted linear map (oracle only); for QuadOperator the implementation is incomplete (known finding F02e)',
     'closeRel / npIsclose are stated over squares of absolute values; the equivalence with the real-number formulas involving sqrt is elementary and not formalised',
     'float rounding inside abs()/hypot and tol*max(..) is outside the Model (guarded by the 1e-9 margin rule)',
